@@ -14,7 +14,11 @@ from vlib import hx
 PROPS = "Props/Properties_C20.v"
 # identifiers that are prefixes of one another, declared longer-before-shorter (abc, ab) and shorter-before-longer
 # (ab, abcd; x1, x, x10); the identifier that is never declared (9) is a prefix of declared ones
-NAMES = {1: "abc", 2: "ab", 3: "abcd", 4: "x1", 5: "x", 6: "x10", 7: "abcde", 8: "x100", 9: "a"}
+NAMES_PREFIX = {1: "abc", 2: "ab", 3: "abcd", 4: "x1", 5: "x", 6: "x10", 7: "abcde", 8: "x100", 9: "a"}
+# externals named like built-in modules (the scanner's objects_table holds externals AND loaded module structures, and
+# yr_modules_unload_all goes through every module name after every scan); "ctl" is the control; 9 is never declared
+NAMES_MODULE = {1: "time", 2: "math", 3: "pe", 4: "hash", 5: "ctl", 6: "elf", 7: "string", 8: "console", 9: "tests"}
+NAMES = NAMES_PREFIX
 INTS = [0, 1, -1, 2, 5, -5, 7, 100, 255, 2 ** 31, -(2 ** 31), 2 ** 62, 2 ** 63 - 1, -(2 ** 63) + 1]
 STRS = [b"", b"abc", b"ABC", b"xabcx", b"ab", b"Abc", b"abcabc", b"c", b"a b", b"\x01\xff", b'q"\\']
 CMPS = {"eq": "==", "ne": "!=", "lt": "<", "le": "<=", "gt": ">", "ge": ">="}
@@ -186,8 +190,12 @@ def gen_cond(r, types, depth=0):
 DEFCMD = {"i": "i", "b": "b", "f": "f", "s": "s"}
 
 
-def gen_case(r, hazard=None):
-    """returns dict(ops=[(model token, [harness lines])...], conds, types)"""
+def gen_case(r, hazard=None, names=None, imports=(), multi=False):
+    """returns dict(ops=[(model token, [harness lines])...], conds, types, names).
+    imports: modules the rule set imports (a rule 'zimp' uses console when imported, so that something is loaded and
+    unloaded in every scan); multi: the history ends with several scans on ONE scanner with defines in between"""
+    global NAMES
+    NAMES = names or NAMES_PREFIX
     nv = r.range(2, 5)
     types = {}
     for i in range(1, nv + 1):
@@ -213,6 +221,7 @@ def gen_case(r, hazard=None):
             cdef(x, ty2, rand_val(r, ty2))
     conds = [gen_cond(r, types) for _ in range(r.range(4, 8))]
     src = "\n".join("rule r%d { condition: %s }" % (i, c_text(c, None)) for i, c in enumerate(conds))
+    src = "".join('import "%s"\n' % m for m in imports) + src + ('\nrule zimp { condition: console.log("i") }' if "console" in imports else "")
     # one history in three continues on the rule set as saved and loaded again (type tags and values must survive)
     loaded = hazard is None and r.chance(1, 3)
     ops.append(("gr", ["add " + hx(src.encode()), "getrules", "dump"] + (["reload", "use loaded", "dump"] if loaded else [])))
@@ -258,6 +267,29 @@ def gen_case(r, hazard=None):
                 ops.append(("sc:%d" % s, ["sel %d" % s, "scan 78"]))
             else:
                 ops.append(("rs", ["rscan 0 0 78"]))
+    if multi:
+        # >= 2 scans on the SAME scanner, scanner-level and rules-level defines between them: the scanner-level value
+        # persists, the rules-level one does not reach the scanner
+        if not alive:
+            alive.add(0)
+            ops.append(("cr:0", ["scanner 0"]))
+        s0 = sorted(alive)[0]
+
+        def scan():
+            ops.append(("sc:%d" % s0, ["sel %d" % s0, "scan 78"]))
+
+        def define(level):
+            x = r.choice(list(types))
+            ty = types[x]
+            v = rand_val(r, ty)
+            if level == "s":
+                ops.append(("sd:%d:%d:%s" % (s0, x, val_model(ty, v)), ["sel %d" % s0, "sdef%s %s %s" % (ty, NAMES[x], val_harness(ty, v))]))
+            else:
+                ops.append(("rd:%d:%s" % (x, val_model(ty, v)), ["rdef%s %s %s" % (ty, NAMES[x], val_harness(ty, v))]))
+                ops.append(("rs", ["rscan 0 0 78", "dump"]))
+        scan(); define("s"); scan(); define("r"); scan(); define("s"); define("s"); scan(); scan()
+        ops.append(("sd:%d:9:i1" % s0, ["sel %d" % s0, "sdefi %s 1" % NAMES[9]]))
+        scan()
     for s in sorted(alive):
         ops.append(("sc:%d" % s, ["sel %d" % s, "scan 78"]))
     ops.append(("rs", ["rscan 0 0 78"]))
@@ -269,7 +301,7 @@ def gen_case(r, hazard=None):
             ops.append(("rd:%d:s6162" % x, ["rdefs %s 6162" % NAMES[x]]))
             ops.append(("rs", ["rscan 0 0 78"]))
         ops.append(("sv", ["save"]))
-    return {"ops": ops, "conds": conds, "types": types}
+    return {"ops": ops, "conds": conds, "types": types, "names": NAMES}
 
 
 def parse_seen(tok):
@@ -441,6 +473,7 @@ def pos_family(chk, h, model):
 
 
 def run(chk):
+    global NAMES
     ok, log, st = vlib.proof_obligations(chk, PROPS)
     if not ok:
         chk.violation("proof", "proof obligations of C20 no longer check: " + log[-1500:], {"log": log[-4000:]}, found_input=False)
@@ -454,6 +487,13 @@ def run(chk):
     for hz in ("null-compiler", "null-scanner", "save"):
         for j in range(2 if chk.tier == "quick" else 6):
             cases.append(("%s%d" % (hz, j), gen_case(chk.rng.fork(), hazard=hz)))
+    # externals named like modules, several scans per scanner; rule sets importing nothing / a different module / the
+    # module of the same name (legal: the external shadows it, only `time.now()`-like member access is a compile error)
+    for j in range(9 if chk.tier == "quick" else 60):
+        imp = [(), ("console",), ("time",), ("console", "math"), ("string",)][j % 5]
+        cases.append(("modname%d" % j, gen_case(chk.rng.fork(), names=NAMES_MODULE, imports=imp, multi=True)))
+    for j in range(3 if chk.tier == "quick" else 12):
+        cases.append(("multi%d" % j, gen_case(chk.rng.fork(), imports=[(), ("console",)][j % 2], multi=True)))
     hcases = []
     for cid, c in cases:
         lines = ["newcompiler", "strings 0"]
@@ -470,6 +510,7 @@ def run(chk):
     twins = []          # (case id, op index, env, expected bits)
     opkinds = {}
     for (cid, c), ml in zip(cases, mlines):
+        NAMES = c["names"]
         res = out.get(cid, [])
         toks = ml.split(" ; ")
         replay = {"case": cid, "harness_lines": dict(hcases)[cid], "model_cmd": "c20 " + " ".join(t for t, _ in c["ops"]),
@@ -591,6 +632,7 @@ def run(chk):
     tout, _ = vlib.run_cases(h, tcases)
     tw_ok = 0
     for (cid, ti, env, bits, c), (tid, tl) in zip(twins, tcases):
+        NAMES = c["names"]
         res = tout.get(tid, [])
         sl = [l for l in res if l.startswith("scan msgs=")]
         tb, rc = verdicts(sl[0], len(c["conds"])) if sl else (None, None)
@@ -611,12 +653,20 @@ def run(chk):
              op_kinds=opkinds, histories=len(cases),
              rule="random histories: 2-5 variables of the four types, compile-time defines (with duplicates), 4-8 probe rules over "
                   "== != < <= > >= + - * unary-, contains/icontains/startswith/istartswith/endswith/iendswith/iequals/==/!=, truth "
-                  "values, not/and/or; then 6-16 rules-level / scanner-level defines (right type, wrong type, unknown identifier, NULL "
+                  "values, not/and/or; externals named with prefix-related identifiers or like built-in modules (time, math, pe, hash + a control; rule sets importing nothing, "
+                  "another module, or the module of the same name), then 6-16 rules-level / scanner-level defines (right type, wrong type, unknown identifier, NULL "
                   "string), scanner creations (3 slots), scans, yr_rules_scan_mem, destroys, save; one history in three runs on the rule set after "
                   "save + load; plus targeted hazard histories "
                   "(NULL string first at compiler / scanner level, save after string redefinition). distinct = (operation kind, model "
                   "outcome, value type) and distinct verdict vectors")
+    # an external shadows the module of the same name: using it as a module is a compile error, not a crash
+    eo, _ = vlib.run_cases(h, [("shadow", ["newcompiler", "defi time 1", "add " + hx(b'import "time" rule r { condition: time.now() > 0 }'), "getrules"])])
+    evals += 1
+    if not any(l.startswith("add errors=1") for l in eo.get("shadow", [])) or not any("6e6f742061207374727563747572" in l for l in eo.get("shadow", [])):
+        chk.violation("shadowed-module-member", "import \"time\" + external time + time.now(): expected the compile error '\"time\" is not a structure', got %s" % eo.get("shadow"),
+                      {"impl": eo.get("shadow")})
     for cid, c in cases[:3]:
+        NAMES = c["names"]
         chk.sample({"case": cid, "ops": [t for t, _ in c["ops"]][:14], "rules": [c_text(x, None) for x in c["conds"]][:4]})
     chk.assumptions += ["identifiers are non-NULL C strings; values handed to the string functions are NUL-terminated (no embedded NUL)",
                         "float values are multiples of 1/8 below 2^20 so that double arithmetic is exact and the rational model applies",
